@@ -97,15 +97,28 @@ class _Resp(object):
         return list(self.headers.items())
 
 
-def raise_for(kind, url, status=None):
+# what a server may put into the body (and the reason phrase) of an error response
+ERROR_BODIES = {
+    '': b'',
+    'json': b'{"error": "rejected", "details": {"field": "data[0].runId", "expected": "{object}"}}',
+    'braces': b'unbalanced } and { and {0} and {ind}',
+    'percent': b'100% of %s and %(name)s and %d',
+    'unicode': '\u00fcbergro\u00df \u2603 {snow}'.encode('utf-8'),
+    'long': (b'{"trace": "' + b'x' * 5000 + b'"}'),
+    'binary': b'\xff\xfe{\x00}',
+}
+ERROR_REASONS = {'': None, 'braces': 'Bad {request}', 'percent': 'Not 100% %s'}
+
+
+def raise_for(kind, url, status=None, body=b'', reason=None):
     if kind == 'refused':
         raise urllib.error.URLError(ConnectionRefusedError(111, 'Connection refused'))
     if kind == '5xx':
         st = status or 503
-        raise urllib.error.HTTPError(url, st, 'Server Error', {}, io.BytesIO(b''))
+        raise urllib.error.HTTPError(url, st, reason or 'Server Error', {}, io.BytesIO(body))
     if kind == '4xx':
         st = status or 400
-        raise urllib.error.HTTPError(url, st, 'Client Error', {}, io.BytesIO(b''))
+        raise urllib.error.HTTPError(url, st, reason or 'Client Error', {}, io.BytesIO(body))
     if kind == 'type':
         raise TypeError('scripted TypeError')
     # the request was received, no complete answer came back: what http.client lets through unwrapped
@@ -186,7 +199,8 @@ class World(object):
         if kind == 'incomplete':
             # status line and headers arrive, the body does not
             return _Resp(status=200, url=req.full_url, incomplete=True)
-        raise_for(kind, req.full_url, self.statuses.get(kind))
+        raise_for(kind, req.full_url, self.statuses.get(kind), ERROR_BODIES[self.statuses.get('body', '')],
+                  ERROR_REASONS[self.statuses.get('reason', '')])
 
     def fire_hook(self):
         h, self.hook = self.hook, None
@@ -274,11 +288,13 @@ class _Handler(BaseHTTPRequestHandler):
             return
         status = {'ok': self.server.statuses.get('ok', 200), '5xx': self.server.statuses.get('5xx', 503),
                   '4xx': self.server.statuses.get('4xx', 400)}[kind]
-        self.send_response(status)
-        self.send_header('Content-Length', '0' if status == 204 else '2')
+        body = b'ok' if kind == 'ok' else ERROR_BODIES[self.server.statuses.get('body', '')]
+        if status == 204:
+            body = b''
+        self.send_response(status, ERROR_REASONS[self.server.statuses.get('reason', '')] if kind != 'ok' else None)
+        self.send_header('Content-Length', str(len(body)))
         self.end_headers()
-        if status != 204:
-            self.wfile.write(b'ok')
+        self.wfile.write(body)
 
     def log_message(self, *a):
         pass
@@ -342,8 +358,14 @@ def options(extra):
 class Session(object):
     """one ReBench session's persistence objects, built by the real code"""
 
-    def __init__(self, workdir, n_runs, data_file, url, with_db=True, branch=None):
-        self.ui = TestDummyUI()
+    def __init__(self, workdir, n_runs, data_file, url, with_db=True, branch=None, real_ui=None):
+        # the real command-line UI (its messages go through str.format), or the test dummy that ignores them
+        if real_ui is None:
+            self.ui = TestDummyUI()
+        else:
+            from rebench.ui import UI
+            self.ui = UI()
+            self.ui.init(real_ui.get('verbose', False), real_ui.get('debug', False))
         self.ds = P.DataStore(self.ui)
         created = []
         cls = P._ReBenchDB
